@@ -64,7 +64,7 @@ func ruleC03G1(c *Ctx, r *rbcModel) {
 			}
 			_ = base
 			// a store of true to the same field of the same entry inside the guarded region, ordered with the call
-			for _, st := range storesToField([]*ssa.Function{fn}, fld) {
+			for _, st := range storesToField(deepFuncs(fn), fld) {
 				k, isK := st.Val.(*ssa.Const)
 				if !isK || k.Value == nil || k.Value.String() != "true" {
 					continue
